@@ -165,6 +165,10 @@ def _rand_op(rng: Rng):
             op['ov_contracts'] = {rng.choice(sorted(IDS)): rng.choice(sorted(SATISFIES))}
         if rng.chance(1, 3):
             op['cache'] = True
+        if rng.chance(1, 4):
+            # flag 10 off: documented to keep CHECK_TEMPLATE from running the signature
+            # extensions first -- and nothing else
+            op['flag10_off'] = True
         if rng.chance(1, 3):
             # the caller stamps the execution itself (the documented way to evaluate
             # time locks at a chosen time)
@@ -694,6 +698,20 @@ def do_run(w, op, run):
     before = _snapshot(cache, ov_c, ov_p)
     _pin()
     w.log = []
+    if op.get('flag10_off'):
+        run.probe('flag10_off')
+        if op['how'] == 'script':
+            kwargs['additional_flags'] = {10: False}
+        else:
+            F.flags[10] = False         # (run_auth_scripts has no per-call flags)
+    try:
+        res, fired = _do_run_inner(w, op, run, code, cache, kwargs, fault)
+    finally:
+        F.flags[10] = True
+    return _judge_run(w, op, run, res, fired, fault, cache, before, ov_c, ov_p, eff_pl, eff_c)
+
+
+def _do_run_inner(w, op, run, code, cache, kwargs, fault):
     if op['how'] in ('auth', 'auth_late'):
         scripts = [code, T.compile_script('true')]
         if op['how'] == 'auth_late':
@@ -708,6 +726,10 @@ def do_run(w, op, run):
         res = _outcome(lambda: [i.hex() for i in F.run_script(code, cache, **kwargs)[1].list()])
     fired = fault is not None and w.armed is None
     w.armed = None
+    return res, fired
+
+
+def _judge_run(w, op, run, res, fired, fault, cache, before, ov_c, ov_p, eff_pl, eff_c):
     after = _snapshot(cache, ov_c, ov_p)
     run.check('caller_dicts_unmodified', before == after,
               'C19/run/caller_arguments_modified/%s' % (
@@ -724,6 +746,8 @@ def do_run(w, op, run):
         got_se = sorted(e[1] for e in log if e[0] == 'P' and e[2] == 'se')
         got_ct = sorted(e[1] for e in log if e[0] == 'P' and e[2] == 'ct')
         mult = {'msg': 1, 'msg2': 2, 'ct': 1, 'ctsame': 1, 'sign': 2}.get(name)
+        if op.get('flag10_off') and name in ('ct', 'ctsame'):
+            mult = 0        # CHECK_TEMPLATE alone skips the signature extensions then
         if mult is not None:
             run.check('run_uses_effective_plugins',
                       got_se == sorted(se * mult) and got_ct == (ct if name in ('ct', 'ctsame') else []),
@@ -893,7 +917,7 @@ def execute(plan, run):
 
 def shrink(plan):
     for i, s in enumerate(plan['steps']):
-        for key in ('fault', 'ov_plugins', 'ov_contracts', 'cache', 'cache_ts', 'nest'):
+        for key in ('fault', 'ov_plugins', 'ov_contracts', 'cache', 'cache_ts', 'flag10_off', 'nest'):
             if key in s:
                 c = copy.deepcopy(plan)
                 del c['steps'][i][key]
